@@ -1,8 +1,9 @@
 //@@ module: chess/movegen/tables/between.rs
 //@@ tag: c07
-//@@ needs: chess__bitboard@c07.rs
+//@@ needs: chess__bitboard@iter.rs
 use crate::verif_support::geo;
-use crate::chess::bitboard::verif_kani_c07::{one_shot_square_next, ONE_SHOT_CALLS, ONE_SHOT_YIELDED};
+use crate::chess::bitboard::verif_kani_iter as iter;
+use crate::chess::bitboard::verif_kani_iter::one_shot_square_next;
 
 //@ obligation: C07.walk.between
 //@ domain: complete
@@ -37,12 +38,11 @@ fn vk_c07_between_init_writes() {
     let j1 = geo::any_square();
     let j2 = geo::any_square();
     let before = between(j1, j2);
-    unsafe {
-        ONE_SHOT_CALLS = 0;
-    }
+    iter::rec_reset();
     init();
-    let (s1, s2) = unsafe { (ONE_SHOT_YIELDED[0], ONE_SHOT_YIELDED[1]) };
-    kani::cover!(s1 != s2 && unsafe { ONE_SHOT_CALLS } == 2);
+    let (s1, s2) = (iter::yielded(0), iter::yielded(1));
+    kani::cover!(s1 != s2);
+    assert!(iter::calls() == 2);
     let want = callee_between(s1, s2).unwrap_or(Bitboard::EMPTY);
     assert!(between(s1, s2) == want);
     if j1 != s1 || j2 != s2 {
